@@ -39,10 +39,10 @@ func RunIsolationCase(cs map[string]any, id int, seed int64, dur time.Duration) 
 			var out Outcome
 			if entry == "msg" {
 				m := MsgFromQuote(c.Q)
-				out = Guard(20*time.Second, func() error { return verify.TdxQuote(m, opts) })
+				out = Guard(120*time.Second, func() error { return verify.TdxQuote(m, opts) })
 			} else {
 				raw := append([]byte{}, c.Raw...)
-				out = Guard(20*time.Second, func() error { return verify.RawTdxQuote(raw, opts) })
+				out = Guard(120*time.Second, func() error { return verify.RawTdxQuote(raw, opts) })
 			}
 			switch {
 			case out.Panic != "" || out.Timeout:
